@@ -271,7 +271,12 @@ def gray2binary(num: IntOrIntArray) -> IntOrIntArray:
     array([0, 1, 2, 3, 4, 5, 6, 7, 8, 9])
 
     """
-    temp = xor(num, (num >> 8))
+    # The Gray code is inverted by a prefix xor. With shifts 32, 16, 8, 4,
+    # 2, 1 every integer of up to 64 bits is handled (a shift greater than
+    # the number of bits simply yields zero).
+    temp = xor(num, (num >> 32))
+    temp = xor(temp, (temp >> 16))
+    temp = xor(temp, (temp >> 8))
     temp = xor(temp, (temp >> 4))
     temp = xor(temp, (temp >> 2))
     temp = xor(temp, (temp >> 1))
